@@ -121,6 +121,11 @@ pub fn c02(seed: u64, n: usize) {
             let pose = ks.core().forward(&q);
             emit_h_iki("C02", &rfam, &p, &pose);
         }
+        // the continuation with the originating joints as previous: same answers, none of them twice
+        if done % 4 == 2 {
+            let pose = ks.core().forward(&q);
+            emit_invc("C02", &format!("{}/continuing", rfam), &ks, &pose, &q, Some(&q));
+        }
         // the position-only solver is a hand-duplicated copy of the same formulas: the originating J1..J5 come back
         if done % 4 == 1 {
             let pose = ks.core().forward(&q);
@@ -189,7 +194,7 @@ pub fn c05(seed: u64, n: usize) {
     let mut r = Rng::new(seed ^ 0xC05);
     let (_, _, thr) = hk::constants();
     let deltas = [0.0, thr / 2.0, thr * (1.0 - 1e-6), thr * (1.0 + 1e-6), 2.0 * thr, 1e-9, 0.1];
-    for kk in -4..=4 {
+    for kk in -12..=12 {
         for d in deltas { for sg in [1.0, -1.0] {
             let v = kk as f64 * PI + sg * d;
             emit_h_mpi("C05", "h/band-grid", v, thr);
@@ -204,7 +209,7 @@ pub fn c05(seed: u64, n: usize) {
         if i % 3 == 0 { p.sign_corrections[4] = -1; }
         let mut ks = KSpec::bare(p);
         if i % 4 == 0 { let d = 1 + r.below(2); ks.stack = gen_stack(&mut r, d, false, true); }
-        let kk = (r.below(9) as f64) - 4.0;
+        let kk = if r.chance(0.7) { (r.below(9) as f64) - 4.0 } else { (r.below(25) as f64) - 12.0 };
         let d = *r.pick(&deltas);
         let th5 = kk * PI + if r.chance(0.5) { d } else { -d };
         let mut th = rand_joints(&mut r, PI);
@@ -236,6 +241,10 @@ pub fn c05(seed: u64, n: usize) {
         let mut prev = q;
         for kk in [3usize, 5] { let cand = prev[kk] + 2.0 * PI * *r.pick(&[-1.0, 1.0]); if cand.abs() <= 2.0 * PI { prev[kk] = cand; } }
         emit_invc("C05", &format!("{}/singular-prev-turns", rfam), &ks, &pose, &prev, Some(&q));
+        // previous realising the pose with J4 and J6 two whole turns away (their sum up to four turns from the raw answer)
+        let mut prev2 = q;
+        for kk in [3usize, 5] { prev2[kk] += 4.0 * PI * *r.pick(&[-1.0, 1.0, 1.0]); }
+        emit_invc("C05", &format!("{}/singular-prev-two-turns", rfam), &ks, &pose, &prev2, Some(&q));
         // the CONSTRAINT_CENTERED sentinel with limits whose centres are not zero
         if i % 3 == 0 {
             let mut f = [0.0; 6]; let mut t = [0.0; 6];
@@ -266,6 +275,8 @@ pub fn c06(seed: u64, n: usize) {
         let mut prev = o.cloned().unwrap_or(rand_joints(&mut r, PI));
         if r.chance(0.5) { prev = rand_joints(&mut r, 2.0 * PI); }
         prev[5] = *r.pick(&[0.0, 2.5, -2.5, 6.0, 0.3]);
+        // the CONSTRAINT_CENTERED sentinel now and then: the caller's J6 is then 0, not the centre of the J6 limits
+        if r.chance(0.12) { prev = rs_opw_kinematics::kinematic_traits::CONSTRAINT_CENTERED; }
         emit_invc5("C06", &qy.fam, &qy.ks, &qy.pose, &prev, o);
         emit_inv("C06", &qy.fam, &qy.ks, &qy.pose, o);
         emit_invc("C06", &qy.fam, &qy.ks, &qy.pose, &prev, o);
